@@ -297,8 +297,6 @@ def install(reg):
         return (Sym(_i(shape)) if isinstance(shape, Sym) else int(shape),)
 
     def m_zeros(interp, shape, dtype=None, **kw):
-        if not contains_sym(shape):
-            return interp.native(np.zeros, shape, **({"dtype": dtype} if dtype is not None else {}), **kw)
         r = SymArr(_shape_tuple(shape), lambda *i: 0.0, "real", name="zeros")
         return set_total(r, FormalSum(0))
 
@@ -351,8 +349,30 @@ def install(reg):
 
         return h
 
-    for f in (np.median, np.mean, np.min, np.max, np.quantile):
+    for f in (np.median, np.min, np.max, np.quantile):
         M[f] = _stat(f)
+
+    def m_mean(interp, x, axis=None, **kw):
+        if isinstance(x, SymArr):
+            if axis is None:
+                return interp.ctx.fresh("mean", "real")
+            return x.mean(axis=axis)  # arithmetic mean along an axis (concrete small extents are expanded)
+        return interp.native(np.mean, x, axis=axis, **kw)
+
+    M[np.mean] = m_mean
+
+    class OpaqueArray:
+        """A complex array whose contents are outside the model (FFT data): arithmetic gives another opaque array."""
+
+        _pyvc_value = True
+
+        def _op(self, *a):
+            return OpaqueArray()
+
+        __add__ = __radd__ = __sub__ = __rsub__ = __mul__ = __rmul__ = __truediv__ = __rtruediv__ = _op
+
+    reg.OpaqueArray = OpaqueArray
+    M[np.fft.fft2] = lambda interp, x, *a, **kw: OpaqueArray() if isinstance(x, (SymArr, OpaqueArray)) else interp.native(np.fft.fft2, x, *a, **kw)
 
     # ---- ravel_multi_index / bincount
     def m_ravel_multi_index(interp, multi_index, dims, mode="raise", order="C"):
@@ -485,6 +505,8 @@ def install(reg):
 
     def arr_setitem(interp, base, key, v):
         """a[i] = row  (i a scalar index, a.ndim >= 2): functional update of one leading slab."""
+        if isinstance(key, tuple) and len(key) >= 1 and all(isinstance(k, slice) and k == slice(None) for k in key[1:]):
+            key = key[0]  # a[i, :] = row  ==  a[i] = row
         if isinstance(key, tuple) or isinstance(key, (slice, SymArr, list)) or key is None or key is Ellipsis or base.ndim < 2:
             return NotImplemented
         if base.base is not base:
@@ -502,10 +524,21 @@ def install(reg):
                 raise RaiseSig(ValueError("could not broadcast input array"))
         old, vf, off = base.fn, va.fn, base.ndim - 1 - va.ndim
         vshape = va.shape
+        w_at = base.writes
+
+        def rhs(*sub):
+            # numpy evaluates the right-hand side completely before it writes (a[0] = a[0] + d): views of `base` that the
+            # value was computed from are read in the pre-write state
+            saved = base.writes
+            base.writes = w_at
+            try:
+                return vf(*sub)
+            finally:
+                base.writes = saved
 
         def fn(*idx):
             sub = [z3.IntVal(0) if V._dim_lit(vshape[j]) == 1 else idx[1 + off + j] for j in range(len(vshape))]
-            return ite(idx[0] == i, vf(*sub), old(*idx))
+            return ite(idx[0] == i, rhs(*sub), old(*idx))
 
         base.fn = fn
         # per-slab ghost totals: a[j] = v with a concrete j remembers SUM v; other slabs keep theirs
